@@ -236,6 +236,8 @@ pub struct World {
     /// a same-hash pair was handled concurrently: the order-dependent part of the reference
     /// model is ambiguous from here on, only order-independent rules are judged
     pub fused: bool,
+    /// two trampoline HTLCs delivered at the same instant in the current window
+    pub window_pair: Option<(usize, usize)>,
     pub suppressed: u64,
     /// probe phase: the environment is cooperative (no faults, pay succeeds)
     pub cooperative: bool,
